@@ -57,10 +57,12 @@ class PROP(PropCheck):
     id = "C13"
     theorems = ["C13_registry_is_reference", "C13_only_core_preloaded", "C13_module_table_sound", "C13_import_mod_exact",
                 "C13_ft_extend_spec", "C13_import_unknown_name", "C13_import_only_exact", "C13_unknown_module_is_error",
-                "C13_missing_file_is_error", "C13_invalid_module_is_error", "C13_import_keeps_importer_state"]
+                "C13_missing_file_is_error", "C13_invalid_module_is_error", "C13_import_keeps_importer_state",
+                "C13_import_user_exact", "C13_exports_only_from_export", "C13_import_user_error"]
+    audit_modules = ["C13", "C13b"]
     coq_imports = ["Obs"]
     model_targets = ["theories/Obs.vo"]
-    prop_targets = ["theories/Props/C13.vo"]
+    prop_targets = ["theories/Props/C13.vo", "theories/Props/C13b.vo"]
     harness_mode = "run"
     trusted_base = [
         "Coq 8.16.1 kernel and bytecode VM",
